@@ -81,7 +81,23 @@ def rule_pairs(chk):
     uses = var_uses(chk, var)
     sets = [(f, c) for f, n, k, c in uses if k == "set"]
     resets = [(f, c) for f, n, k, c in uses if k == "reset"]
-    chk.instances("C04.pair:set calls", len(sets), 3)
+    chk.instances("C04.pair:set calls", len(sets), 1)
+    # each of the three scoping constructs installs the action (directly or through a helper method)
+    setters = {f for f, c in sets}
+    for q in ("Action.run", "Action.context", "Action.__enter__"):
+        g = ctx.func("_action", q)
+        reach = {g}
+        todo = [g]
+        while todo:
+            h = todo.pop()
+            for s in ctx.cg.sites.get(h, []):
+                for t in s.repo_targets():
+                    if t.cls is g.cls and t not in reach:
+                        reach.add(t)
+                        todo.append(t)
+        chk.req(bool(reach & setters), "C04.entered", "%s:installs-the-action" % q, chk.where(g),
+                good="sets the context variable (in %s)" % ", ".join(sorted(x.name for x in reach & setters)),
+                fail="%s does not make the action current" % q)
     matched_resets = set()
     for f, c in sets:
         cfg = ctx.cfg(f)
